@@ -8,6 +8,7 @@ import (
 	"path/filepath"
 	"sort"
 	"strings"
+	"time"
 
 	"github.com/wizenheimer/comet"
 
@@ -111,6 +112,26 @@ func runC09(r *ev.Run) {
 			r.Count("cases:many-sessions", 1)
 		}
 		midFlushes, rotations, faults := 0, 0, 0
+		// every third case runs with the real background flush worker (flush threshold of one byte: every add wakes it);
+		// the durability oracle does not care who wrote a segment, only that an acknowledged Flush left nothing behind
+		// compaction threshold: nothing in these histories asks for a compaction (no TriggerCompaction, the periodic check is
+		// a day away), so any threshold is as good as "never" — unless something compacts on its own accord
+		p.CompactionThreshold = []int{2, 3, 5, 1000}[rng.IntN(4)]
+		bg := ci%3 == 2
+		if bg {
+			p.FlushThreshold = 1
+			r.Count("cases:background-flush-worker-on", 1)
+		}
+		// quiesce: wait (bounded) until the worker has nothing left to write — only the writable memtable is queued
+		quiesce := func(s *comet.PersistentHybridIndex) bool {
+			for i := 0; i < 5000; i++ {
+				if s.VerifMemtableCount() <= 1 {
+					return true
+				}
+				time.Sleep(time.Millisecond)
+			}
+			return false
+		}
 		verifyDir := func(when string) {
 			files, err := segmentFiles(dir)
 			if err != nil {
@@ -262,7 +283,18 @@ func runC09(r *ev.Run) {
 					}
 				}
 				if rng.IntN(8) == 0 {
-					switch rng.IntN(6) {
+					if bg && rng.IntN(2) == 0 {
+						// let the worker finish whatever the adds woke it for, write nothing meanwhile, then Flush: what the
+						// worker did NOT take (the writable memtable) is still owed by the Flush
+						if quiesce(s) {
+							r.Count("ops:flush-after-the-worker-went-idle", 1)
+						}
+					}
+					fault := rng.IntN(6)
+					if bg && fault == 1 {
+						fault = 5 // no obstruction while the worker may be creating files of its own
+					}
+					switch fault {
 					case 0:
 						// the writable memtable is rotated out first (Train() and a rejected oversized Add do the same):
 						// Flush must persist frozen memtables too
@@ -320,7 +352,13 @@ func runC09(r *ev.Run) {
 					}
 					pending = map[uint32]bool{}
 					midFlushes++
-					verifyDir("after-flush")
+					if !bg {
+						// (with the worker on, it and the explicit Flush may both be writing the same frozen memtable into two
+						// segments — harmless duplicates — so a listing taken now can see a file half written; my first version
+						// hashed such files and raised a false alarm on the unchanged tree. File identity is then checked
+						// after every Close only, when the worker has stopped.)
+						verifyDir("after-flush")
+					}
 					checkFound(s, "same-handle-after-flush")
 					// the process may end right after the acknowledgement: the directory as it is NOW must reopen complete
 					if img, err := readImage(dir); err == nil && !dead {
